@@ -1,8 +1,10 @@
 (* Lemmas for C11: the row matrix of an interleaved / DAQmx buffer is strided
    direct addressing. *)
-From Coq Require Import List ZArith Bool Lia.
+From Coq Require Import List ZArith Bool Lia ZifyBool.
 Import ListNotations.
-From NpTdms Require Import Base.Bytes Base.Res Model.Tokens Model.SegState Model.Layout.
+From Coq Require String.
+From NpTdms Require Import Base.Bytes Base.Res Model.Tokens Model.SegState Model.Layout
+     Proofs.SegStateProofs.
 Local Open Scope Z_scope.
 
 Lemma skipn_skipn' {A} (a b : nat) (l : list A) : skipn a (skipn b l) = skipn (b + a) l.
@@ -33,3 +35,1025 @@ Proof.
       * cbn [nth_error] in H. apply IH in H; [|exact Hw]. subst row.
         unfold read_at. rewrite drop_drop by lia. f_equal. f_equal. lia.
 Qed.
+
+(* ---- slicing algebra -------------------------------------------------------- *)
+
+Lemma take_take (a b : Z) (l : bytes) : take a (take b l) = take (Z.min a b) l.
+Proof. rewrite !take_firstn, firstn_firstn. f_equal. lia. Qed.
+
+Lemma drop_take (a b : Z) (l : bytes) : 0 <= a -> drop a (take b l) = take (b - a) (drop a l).
+Proof.
+  intros Ha. rewrite !take_firstn, !drop_skipn, skipn_firstn_comm. f_equal. lia.
+Qed.
+
+Lemma blen_drop (n : Z) (l : bytes) : 0 <= n -> blen (drop n l) = blen l - Z.min n (blen l).
+Proof. intros Hn. rewrite drop_skipn. unfold blen. rewrite skipn_length. lia. Qed.
+
+Lemma blen_take (n : Z) (l : bytes) : 0 <= n -> blen (take n l) = Z.min n (blen l).
+Proof. intros Hn. rewrite take_firstn. unfold blen. rewrite firstn_length. lia. Qed.
+
+(* a window of a window is a window of the whole *)
+Lemma read_at_sub (a n b m : Z) (l : bytes) :
+  0 <= a -> 0 <= b -> b + m <= n ->
+  read_at b m (read_at a n l) = read_at (a + b) m l.
+Proof.
+  intros Ha Hb Hm. unfold read_at. rewrite drop_take by exact Hb.
+  rewrite take_take, drop_drop by assumption. f_equal. lia.
+Qed.
+
+(* ---- the row matrix --------------------------------------------------------- *)
+
+(* number of complete rows *)
+Lemma items_of_length (width : Z) : 0 < width -> forall (fuel : nat) (buf : bytes),
+    (length buf <= fuel)%nat ->
+    Z.of_nat (length (items_of fuel width buf)) = blen buf / width.
+Proof.
+  intros Hw. induction fuel as [|f IH]; intros buf Hfuel.
+  - destruct buf; [|cbn in Hfuel; lia]. change (0 = 0 / width). symmetry. apply Z.div_0_l. lia.
+  - cbn [items_of]. destruct ((blen buf <? width) || (width <=? 0)) eqn:E.
+    + cbn [length]. pose proof (blen_nonneg buf). rewrite Z.div_small by lia. reflexivity.
+    + cbn [length]. rewrite Nat2Z.inj_succ, IH.
+      * rewrite blen_drop by lia. rewrite Z.min_l by lia.
+        assert (Hd : blen buf / width = (blen buf - width) / width + 1).
+        { replace (blen buf) with ((blen buf - width) + 1 * width) at 1 by lia.
+          apply Z.div_add. lia. }
+        lia.
+      * assert (Hl : blen (drop width buf) = blen buf - Z.min width (blen buf)) by (apply blen_drop; lia).
+        unfold blen in *. lia.
+Qed.
+
+Lemma items_length (width : Z) (buf : bytes) :
+  0 < width -> Z.of_nat (length (items width buf)) = blen buf / width.
+Proof. intros Hw. apply items_of_length; [exact Hw|lia]. Qed.
+
+(* Selecting byte columns [off, off+sz) from the row matrix IS reading [sz]
+   bytes at [i * width + off] in the flat buffer, for every complete row i. *)
+Theorem column_direct_addressing (e : endian) (dt : Z) (fuel : nat) (width : Z) (buf : bytes)
+        (off sz : Z) (i : nat) :
+  0 < width -> 0 <= off -> off + sz <= width ->
+  (i < length (items_of fuel width buf))%nat ->
+  nth_error (column_values e dt (items_of fuel width buf) off sz) i
+  = Some (canon_value e dt (read_at (Z.of_nat i * width + off) sz buf)).
+Proof.
+  intros Hw Hoff Hsz Hi. unfold column_values. rewrite nth_error_map.
+  destruct (nth_error (items_of fuel width buf) i) as [row|] eqn:Hrow.
+  - apply items_of_nth in Hrow; [|exact Hw]. subst row. cbn [option_map]. do 2 f_equal.
+    change (take sz (drop off (read_at (Z.of_nat i * width) width buf)))
+      with (read_at off sz (read_at (Z.of_nat i * width) width buf)).
+    apply read_at_sub; lia.
+  - apply nth_error_None in Hrow. lia.
+Qed.
+
+Lemma column_values_length e dt rows off sz : length (column_values e dt rows off sz) = length rows.
+Proof. unfold column_values. apply map_length. Qed.
+
+(* ---- scalers ---------------------------------------------------------------- *)
+
+(* every row of the matrix lies completely inside the buffer *)
+Lemma items_of_nth_bound (fuel : nat) (width : Z) : forall (buf : bytes) (i : nat) (row : bytes),
+    0 < width ->
+    nth_error (items_of fuel width buf) i = Some row ->
+    (Z.of_nat i + 1) * width <= blen buf.
+Proof.
+  induction fuel as [|f IH]; intros buf i row Hw H.
+  - destruct i; discriminate.
+  - cbn [items_of] in H.
+    destruct ((blen buf <? width) || (width <=? 0)) eqn:E.
+    + destruct i; discriminate.
+    + destruct i as [|i].
+      * lia.
+      * cbn [nth_error] in H. apply IH in H; [|exact Hw].
+        rewrite blen_drop in H by lia. lia.
+Qed.
+
+(* What a scaler denotes at row i of a buffer whose first row starts at byte
+   [base] of [buf] and whose rows are [width] bytes apart: the typed value at
+   the declared byte offset; digital lines: bit (offset mod 8) of the value at
+   byte offset / 8. *)
+Definition scaler_value_at (e : endian) (kind : Z) (s : scaler) (dt sz base width : Z) (buf : bytes)
+           (i : nat) : bytes :=
+  if kind =? DIGITAL_LINE_SCALER
+  then digital_bit (sc_off s mod 8)
+                   (canon_value e dt (read_at (base + Z.of_nat i * width + sc_off s / 8) sz buf))
+  else canon_value e dt (read_at (base + Z.of_nat i * width + sc_off s) sz buf).
+
+Theorem scaler_direct_addressing (e : endian) (kind : Z) (s : scaler) (fuel : nat) (width : Z)
+        (buf : bytes) (dt sz : Z) (vs : list bytes) :
+  0 < width -> 0 <= sc_off s ->
+  daqmx_type (sc_type s) = Some dt -> tds_size dt = Some (Some sz) ->
+  scaler_values e kind s (items_of fuel width buf) width = Ok vs ->
+  length vs = length (items_of fuel width buf) /\
+  forall i, (i < length (items_of fuel width buf))%nat ->
+            nth_error vs i = Some (scaler_value_at e kind s dt sz 0 width buf i).
+Proof.
+  intros Hw Hoff Hdt Hsz Hok. unfold scaler_values in Hok. rewrite Hdt, Hsz in Hok.
+  unfold scaler_value_at.
+  destruct (kind =? DIGITAL_LINE_SCALER) eqn:Ek.
+  - destruct (width <? sc_off s / 8 + sz) eqn:Ew; [discriminate|]. injection Hok as <-.
+    assert (Hoff8 : 0 <= sc_off s / 8) by (apply Z.div_pos; lia).
+    split; [rewrite map_length; apply column_values_length|].
+    intros i Hi. rewrite nth_error_map.
+    rewrite column_direct_addressing by (try assumption; lia). reflexivity.
+  - destruct (width <? sc_off s + sz) eqn:Ew; [discriminate|]. injection Hok as <-.
+    split; [apply column_values_length|].
+    intros i Hi. apply column_direct_addressing; try assumption; lia.
+Qed.
+
+(* the same for a buffer that is the window [base, base + len) of a larger
+   byte string (one raw buffer inside a chunk inside the file): addresses are
+   relative to the larger string *)
+Theorem scaler_window_addressing (e : endian) (kind : Z) (s : scaler) (fuel : nat)
+        (base len width : Z) (buf : bytes) (dt sz : Z) (vs : list bytes) :
+  0 < width -> 0 <= sc_off s -> 0 <= base -> 0 <= len ->
+  daqmx_type (sc_type s) = Some dt -> tds_size dt = Some (Some sz) ->
+  scaler_values e kind s (items_of fuel width (read_at base len buf)) width = Ok vs ->
+  length vs = length (items_of fuel width (read_at base len buf)) /\
+  forall i, (i < length (items_of fuel width (read_at base len buf)))%nat ->
+            nth_error vs i = Some (scaler_value_at e kind s dt sz base width buf i).
+Proof.
+  intros Hw Hoff Hbase Hlen Hdt Hsz Hok.
+  destruct (scaler_direct_addressing e kind s fuel width (read_at base len buf) dt sz vs
+                                     Hw Hoff Hdt Hsz Hok) as [Hl Hnth].
+  split; [exact Hl|]. intros i Hi. rewrite (Hnth i Hi). f_equal.
+  (* the row lies inside the window *)
+  destruct (nth_error (items_of fuel width (read_at base len buf)) i) as [row|] eqn:Hrow;
+    [|apply nth_error_None in Hrow; lia].
+  apply items_of_nth_bound in Hrow; [|exact Hw].
+  assert (Hwin : blen (read_at base len buf) <= len).
+  { unfold read_at. rewrite blen_take by exact Hlen. lia. }
+  unfold scaler_values in Hok. rewrite Hdt, Hsz in Hok.
+  unfold scaler_value_at. destruct (kind =? DIGITAL_LINE_SCALER) eqn:Ek.
+  - destruct (width <? sc_off s / 8 + sz) eqn:Ew; [discriminate|].
+    assert (Hoff8 : 0 <= sc_off s / 8) by (apply Z.div_pos; lia).
+    do 2 f_equal. rewrite read_at_sub by nia. f_equal. lia.
+  - destruct (width <? sc_off s + sz) eqn:Ew; [discriminate|].
+    f_equal. rewrite read_at_sub by nia. f_equal. lia.
+Qed.
+
+(* conversely the scaler is decodable exactly when its bytes fit in the row *)
+Lemma scaler_values_ok_iff (e : endian) (kind : Z) (s : scaler) (rows : list bytes) (width dt sz : Z) :
+  daqmx_type (sc_type s) = Some dt -> tds_size dt = Some (Some sz) ->
+  ((exists vs, scaler_values e kind s rows width = Ok vs) <->
+   (if kind =? DIGITAL_LINE_SCALER then sc_off s / 8 else sc_off s) + sz <= width).
+Proof.
+  intros Hdt Hsz. unfold scaler_values. rewrite Hdt, Hsz.
+  destruct (width <? (if kind =? DIGITAL_LINE_SCALER then sc_off s / 8 else sc_off s) + sz) eqn:E.
+  - split; [intros [vs H]; discriminate|lia].
+  - split; [lia|]. intros _. eexists. reflexivity.
+Qed.
+
+(* ---- buffers of a chunk: read one after another = addressed from the chunk base ---- *)
+
+Lemma read_rows_spec (w n : Z) (cur : bytes) :
+  read_rows w n cur = (items w (take (w * n) cur), drop (w * n) cur).
+Proof. reflexivity. Qed.
+
+(* read_rows consumes exactly min(width * nrows, available) bytes *)
+Lemma read_rows_consumed (w n : Z) (cur : bytes) :
+  0 <= w * n -> blen (snd (read_rows w n cur)) = blen cur - Z.min (w * n) (blen cur).
+Proof. intros H. rewrite read_rows_spec. cbn [snd]. apply blen_drop. exact H. Qed.
+
+(* the same loop with every buffer addressed from the start of [buf] *)
+Fixpoint daqmx_buffers_at (e : endian) (objs : list sobj) (dims : list (Z * Z)) (bi base : Z)
+         (buf : bytes) (data sdata : chunk) : res (chunk * chunk * bytes) :=
+  match dims with
+  | [] => Ok (data, sdata, drop base buf)
+  | (n, w) :: r =>
+    let rows := items w (read_at base (w * n) buf) in
+    do '(d, s) <- daqmx_buffer_objs e objs bi rows w data sdata;
+    daqmx_buffers_at e objs r (bi + 1) (base + w * n) buf d s
+  end.
+
+Theorem daqmx_buffers_direct (e : endian) (objs : list sobj) : forall dims bi base buf data sdata,
+    0 <= base -> Forall (fun d => 0 <= fst d /\ 0 <= snd d) dims ->
+    daqmx_buffers e objs dims bi (drop base buf) data sdata
+    = daqmx_buffers_at e objs dims bi base buf data sdata.
+Proof.
+  induction dims as [|[n w] r IH]; intros bi base buf data sdata Hb Hd; [reflexivity|].
+  inversion Hd as [|x l [Hn Hw] Hd']; subst x l. cbn [fst snd] in Hn, Hw.
+  cbn [daqmx_buffers daqmx_buffers_at]. rewrite read_rows_spec.
+  change (take (w * n) (drop base buf)) with (read_at base (w * n) buf).
+  destruct (daqmx_buffer_objs e objs bi (items w (read_at base (w * n) buf)) w data sdata)
+    as [[d s]|err]; cbn [bind]; [|reflexivity].
+  rewrite drop_drop by nia. apply IH; [nia|exact Hd'].
+Qed.
+
+(* start of buffer k relative to the chunk base: the bytes of the earlier buffers *)
+Definition buffer_base (dims : list (Z * Z)) (k : nat) : Z :=
+  zsum (map (fun d => snd d * fst d) (firstn k dims)).
+
+Lemma buffer_base_S n w r k : buffer_base ((n, w) :: r) (S k) = w * n + buffer_base r k.
+Proof. reflexivity. Qed.
+
+Lemma buffer_base_nonneg dims k :
+  Forall (fun d => 0 <= fst d /\ 0 <= snd d) dims -> 0 <= buffer_base dims k.
+Proof.
+  intros H. revert k. induction H as [|[n w] r [Hn Hw] _ IH]; intros k.
+  - destruct k; cbn; lia.
+  - destruct k as [|k]; [cbn; lia|]. rewrite buffer_base_S. specialize (IH k).
+    cbn [fst snd] in Hn, Hw. nia.
+Qed.
+
+Lemma drop_0 (l : bytes) : drop 0 l = l.
+Proof. rewrite drop_skipn. reflexivity. Qed.
+
+Lemma read_at_drop (a m b : Z) (l : bytes) :
+  0 <= a -> 0 <= b -> read_at a m (drop b l) = read_at (b + a) m l.
+Proof. intros Ha Hb. unfold read_at. rewrite drop_drop by assumption. reflexivity. Qed.
+
+(* when the buffer is completely present it has exactly its declared number of rows *)
+Lemma rows_count_full (w n base : Z) (cur : bytes) :
+  0 < w -> 0 <= n -> 0 <= base -> base + w * n <= blen cur ->
+  Z.of_nat (length (items w (read_at base (w * n) cur))) = n.
+Proof.
+  intros Hw Hn Hb Hfit. rewrite items_length by exact Hw.
+  unfold read_at. rewrite blen_take by nia. rewrite blen_drop by exact Hb.
+  replace (Z.min (w * n) (blen cur - Z.min base (blen cur))) with (n * w) by nia.
+  apply Z.div_mul. lia.
+Qed.
+
+(* ---- bookkeeping: where a scaler's values are filed ------------------------------ *)
+
+(* scaler_data[scale_id] of one channel *)
+Fixpoint zfind (id : Z) (l : list (Z * list bytes)) : option (list bytes) :=
+  match l with
+  | [] => None
+  | (k, v) :: r => if k =? id then Some v else zfind id r
+  end.
+
+Fixpoint zupd (id : Z) (vs : list bytes) (l : list (Z * list bytes)) : list (Z * list bytes) :=
+  match l with
+  | [] => [(id, vs)]
+  | (k, v) :: r => if k =? id then (k, vs) :: r else (k, v) :: zupd id vs r
+  end.
+
+Lemma cdata_set_scaler_eq id vs c :
+  cdata_set_scaler id vs c =
+  CScalers (match c with Some (CScalers l) => zupd id vs l | _ => [(id, vs)] end).
+Proof.
+  destruct c as [[vals|l]|]; try reflexivity.
+  unfold cdata_set_scaler. f_equal.
+  induction l as [|[k v] r IH]; [reflexivity|].
+  cbn. destruct (k =? id); [reflexivity|]. f_equal. exact IH.
+Qed.
+
+Lemma zfind_zupd_same id vs l : zfind id (zupd id vs l) = Some vs.
+Proof.
+  induction l as [|[k v] r IH]; cbn [zupd zfind].
+  - rewrite Z.eqb_refl. reflexivity.
+  - destruct (k =? id) eqn:E; cbn [zfind]; rewrite E; [reflexivity|exact IH].
+Qed.
+
+Lemma zfind_zupd_other id id' vs l : id' <> id -> zfind id' (zupd id vs l) = zfind id' l.
+Proof.
+  intros H. induction l as [|[k v] r IH]; cbn [zupd zfind].
+  - replace (id =? id') with false by lia. reflexivity.
+  - destruct (k =? id) eqn:E; cbn [zfind].
+    + replace (k =? id') with false by lia. reflexivity.
+    + destruct (k =? id'); [reflexivity|exact IH].
+Qed.
+
+(* the chunk dictionary [sd] files values [vs] under channel [path], scale id [id] *)
+Definition holds (path : bytes) (id : Z) (vs : list bytes) (sd : chunk) : Prop :=
+  exists l, alookup path sd = Some (CScalers l) /\ zfind id l = Some vs.
+
+Lemma holds_set_same path id vs sd :
+  holds path id vs (aset path (cdata_set_scaler id vs (alookup path sd)) sd).
+Proof.
+  unfold holds. rewrite alookup_aset, bytes_eqb_refl, cdata_set_scaler_eq.
+  eexists. split; [reflexivity|].
+  destruct (alookup path sd) as [[vals|l]|]; cbn [zfind]; try (rewrite Z.eqb_refl; reflexivity).
+  apply zfind_zupd_same.
+Qed.
+
+Lemma holds_set_other path id vs path' id' vs' sd :
+  path <> path' \/ id <> id' ->
+  holds path id vs sd ->
+  holds path id vs (aset path' (cdata_set_scaler id' vs' (alookup path' sd)) sd).
+Proof.
+  intros Hne [l [Hl Hf]]. unfold holds. rewrite alookup_aset.
+  destruct (bytes_eqb path path') eqn:E.
+  - apply bytes_eqb_eq in E. subst path'. destruct Hne as [Hne|Hne]; [contradiction|].
+    rewrite Hl, cdata_set_scaler_eq. eexists. split; [reflexivity|].
+    rewrite zfind_zupd_other by exact Hne. exact Hf.
+  - exists l. split; assumption.
+Qed.
+
+Lemma aset_keys_subset {V} (k : bytes) (v : V) (l : alist V) (x : bytes) :
+  In x (map fst (aset k v l)) -> x = k \/ In x (map fst l).
+Proof.
+  induction l as [|[k' v'] r IH]; cbn.
+  - intros [H|[]]. left. symmetry. exact H.
+  - destruct (bytes_eqb k k'); cbn; intros [H|H]; auto.
+    destruct (IH H); auto.
+Qed.
+
+Lemma aset_NoDup {V} (k : bytes) (v : V) (l : alist V) :
+  NoDup (map fst l) -> NoDup (map fst (aset k v l)).
+Proof.
+  induction l as [|[k' v'] r IH]; cbn; intros H.
+  - constructor; [intros []|constructor].
+  - inversion H as [|x l' Hnin Hnd]; subst. destruct (bytes_eqb k k') eqn:E; cbn.
+    + constructor; assumption.
+    + constructor; [|apply IH; exact Hnd]. intros Hin. apply aset_keys_subset in Hin.
+      destruct Hin as [->|Hin]; [rewrite bytes_eqb_refl in E; discriminate|contradiction].
+Qed.
+
+Lemma NoDup_map_inj {A B} (f : A -> B) (l : list A) (x y : A) :
+  NoDup (map f l) -> In x l -> In y l -> f x = f y -> x = y.
+Proof.
+  induction l as [|a l IH]; cbn; intros Hnd Hx Hy E; [contradiction|].
+  inversion Hnd as [|b l' Hnin Hnd']; subst.
+  destruct Hx as [->|Hx], Hy as [->|Hy]; try reflexivity.
+  - exfalso. apply Hnin. rewrite E. apply in_map. exact Hy.
+  - exfalso. apply Hnin. rewrite <- E. apply in_map. exact Hx.
+  - apply IH; assumption.
+Qed.
+
+(* -- the scalers of one object in one buffer -- *)
+
+Lemma obj_scalers_keys e o q bi rows w : forall scalers data sd d' s',
+    daqmx_obj_scalers e o q bi rows w scalers data sd = Ok (d', s') ->
+    NoDup (map fst sd) -> NoDup (map fst s').
+Proof.
+  induction scalers as [|s r IH]; intros data sd d' s' H Hnd; cbn [daqmx_obj_scalers] in H.
+  - injection H as <- <-. exact Hnd.
+  - destruct (negb (sc_buf s =? bi)); [eapply IH; eassumption|].
+    destruct (scaler_values e (dq_kind q) s rows w) as [vs|]; cbn [bind] in H; [|discriminate].
+    destruct (oz_eqb (so_dtype o) (Some T_DAQMX)).
+    + eapply IH; [exact H|]. apply aset_NoDup. exact Hnd.
+    + eapply IH; eassumption.
+Qed.
+
+Lemma obj_scalers_preserve e o q bi rows w path id vs0 : forall scalers data sd d' s',
+    daqmx_obj_scalers e o q bi rows w scalers data sd = Ok (d', s') ->
+    (path <> so_path o \/ forall s, In s scalers -> sc_buf s = bi -> sc_id s <> id) ->
+    holds path id vs0 sd -> holds path id vs0 s'.
+Proof.
+  induction scalers as [|s r IH]; intros data sd d' s' H Hc Hh; cbn [daqmx_obj_scalers] in H.
+  - injection H as <- <-. exact Hh.
+  - assert (Hc' : path <> so_path o \/ forall s0, In s0 r -> sc_buf s0 = bi -> sc_id s0 <> id).
+    { destruct Hc as [Hc|Hc]; [left; exact Hc|right]. intros s0 Hin. apply Hc. right. exact Hin. }
+    destruct (sc_buf s =? bi) eqn:Eb; cbn [negb] in H; [|eapply IH; eassumption].
+    destruct (scaler_values e (dq_kind q) s rows w) as [vs|]; cbn [bind] in H; [|discriminate].
+    destruct (oz_eqb (so_dtype o) (Some T_DAQMX)).
+    + eapply IH; [exact H|exact Hc'|]. apply holds_set_other; [|exact Hh].
+      destruct Hc as [Hc|Hc]; [left; exact Hc|right]. intros E.
+      apply (Hc s (or_introl eq_refl)); [lia|symmetry; exact E].
+    + eapply IH; eassumption.
+Qed.
+
+Lemma obj_scalers_establish e o q bi rows w s : forall scalers data sd d' s',
+    daqmx_obj_scalers e o q bi rows w scalers data sd = Ok (d', s') ->
+    so_dtype o = Some T_DAQMX ->
+    In s scalers -> sc_buf s = bi -> NoDup (map sc_id scalers) ->
+    exists vs, scaler_values e (dq_kind q) s rows w = Ok vs /\ holds (so_path o) (sc_id s) vs s'.
+Proof.
+  induction scalers as [|s1 r IH]; intros data sd d' s' H Hdt Hin Hb Hnd; [contradiction|].
+  cbn [daqmx_obj_scalers] in H. cbn [map] in Hnd. inversion Hnd as [|x l Hnin Hnd']; subst x l.
+  destruct Hin as [Heq|Hin].
+  - subst s1. replace (sc_buf s =? bi) with true in H by lia. cbn [negb] in H.
+    destruct (scaler_values e (dq_kind q) s rows w) as [vs|] eqn:Ev; [|discriminate].
+    cbn [bind] in H. rewrite Hdt in H.
+    change (oz_eqb (Some T_DAQMX) (Some T_DAQMX)) with true in H. cbv iota in H.
+    exists vs. split; [reflexivity|].
+    eapply obj_scalers_preserve; [exact H| |apply holds_set_same].
+    right. intros s0 Hin0 _ E. apply Hnin. rewrite <- E. apply in_map. exact Hin0.
+  - destruct (negb (sc_buf s1 =? bi)); [eapply IH; eassumption|].
+    destruct (scaler_values e (dq_kind q) s1 rows w) as [vs1|]; cbn [bind] in H; [|discriminate].
+    destruct (oz_eqb (so_dtype o) (Some T_DAQMX)); eapply IH; eassumption.
+Qed.
+
+(* -- all objects in one buffer -- *)
+
+Lemma buffer_objs_keys e bi rows w : forall objs data sd d' s',
+    daqmx_buffer_objs e objs bi rows w data sd = Ok (d', s') ->
+    NoDup (map fst sd) -> NoDup (map fst s').
+Proof.
+  induction objs as [|o r IH]; intros data sd d' s' H Hnd; cbn [daqmx_buffer_objs] in H.
+  - injection H as <- <-. exact Hnd.
+  - destruct (so_daqmx o) as [q|]; [|discriminate].
+    destruct (daqmx_obj_scalers e o q bi rows w (dq_scalers q) data sd) as [[d1 s1]|] eqn:E1;
+      cbn [bind] in H; [|discriminate].
+    eapply IH; [exact H|]. eapply obj_scalers_keys; eassumption.
+Qed.
+
+Lemma buffer_objs_preserve e bi rows w path id vs0 : forall objs data sd d' s',
+    daqmx_buffer_objs e objs bi rows w data sd = Ok (d', s') ->
+    (forall o q s, In o objs -> so_daqmx o = Some q -> so_path o = path ->
+                   In s (dq_scalers q) -> sc_buf s = bi -> sc_id s <> id) ->
+    holds path id vs0 sd -> holds path id vs0 s'.
+Proof.
+  induction objs as [|o r IH]; intros data sd d' s' H Hc Hh; cbn [daqmx_buffer_objs] in H.
+  - injection H as <- <-. exact Hh.
+  - destruct (so_daqmx o) as [q|] eqn:Hq; [|discriminate].
+    destruct (daqmx_obj_scalers e o q bi rows w (dq_scalers q) data sd) as [[d1 s1]|] eqn:E1;
+      cbn [bind] in H; [|discriminate].
+    eapply IH; [exact H| |].
+    + intros o' q' s0 Hin. apply Hc. right. exact Hin.
+    + eapply obj_scalers_preserve; [exact E1| |exact Hh].
+      destruct (bytes_eqb path (so_path o)) eqn:Ep.
+      * apply bytes_eqb_eq in Ep. right. intros s0 Hin0 Hb0.
+        apply (Hc o q s0 (or_introl eq_refl) Hq (eq_sym Ep) Hin0 Hb0).
+      * left. apply bytes_eqb_neq. exact Ep.
+Qed.
+
+Lemma buffer_objs_establish e bi rows w o q s : forall objs data sd d' s',
+    daqmx_buffer_objs e objs bi rows w data sd = Ok (d', s') ->
+    In o objs -> NoDup (map so_path objs) -> so_daqmx o = Some q -> so_dtype o = Some T_DAQMX ->
+    In s (dq_scalers q) -> sc_buf s = bi -> NoDup (map sc_id (dq_scalers q)) ->
+    exists vs, scaler_values e (dq_kind q) s rows w = Ok vs /\ holds (so_path o) (sc_id s) vs s'.
+Proof.
+  induction objs as [|o1 r IH]; intros data sd d' s' H Hin Hnd Hq Hdt Hs Hb Hids; [contradiction|].
+  cbn [daqmx_buffer_objs] in H. cbn [map] in Hnd. inversion Hnd as [|x l Hnin Hnd']; subst x l.
+  destruct Hin as [Heq|Hin].
+  - subst o1. rewrite Hq in H.
+    destruct (daqmx_obj_scalers e o q bi rows w (dq_scalers q) data sd) as [[d1 s1]|] eqn:E1;
+      cbn [bind] in H; [|discriminate].
+    destruct (obj_scalers_establish e o q bi rows w s _ _ _ _ _ E1 Hdt Hs Hb Hids) as [vs [Hv Hh]].
+    exists vs. split; [exact Hv|].
+    eapply buffer_objs_preserve; [exact H| |exact Hh].
+    intros o' q' s0 Hin' _ Hp. exfalso. apply Hnin. rewrite <- Hp. apply in_map. exact Hin'.
+  - destruct (so_daqmx o1) as [q1|]; [|discriminate].
+    destruct (daqmx_obj_scalers e o1 q1 bi rows w (dq_scalers q1) data sd) as [[d1 s1]|];
+      cbn [bind] in H; [|discriminate].
+    eapply IH; eassumption.
+Qed.
+
+(* -- all buffers of a chunk -- *)
+
+Lemma buffers_keys e objs : forall dims bi cur data sd d' s' cur',
+    daqmx_buffers e objs dims bi cur data sd = Ok (d', s', cur') ->
+    NoDup (map fst sd) -> NoDup (map fst s').
+Proof.
+  induction dims as [|[n w] r IH]; intros bi cur data sd d' s' cur' H Hnd; cbn [daqmx_buffers] in H.
+  - injection H as <- <- <-. exact Hnd.
+  - destruct (read_rows w n cur) as [rows cur1].
+    destruct (daqmx_buffer_objs e objs bi rows w data sd) as [[d1 s1]|] eqn:E1;
+      cbn [bind] in H; [|discriminate].
+    eapply IH; [exact H|]. eapply buffer_objs_keys; eassumption.
+Qed.
+
+Lemma buffers_preserve e objs path id vs0 : forall dims bi cur data sd d' s' cur',
+    daqmx_buffers e objs dims bi cur data sd = Ok (d', s', cur') ->
+    (forall o q s, In o objs -> so_daqmx o = Some q -> so_path o = path ->
+                   In s (dq_scalers q) -> sc_id s = id -> sc_buf s < bi) ->
+    holds path id vs0 sd -> holds path id vs0 s'.
+Proof.
+  induction dims as [|[n w] r IH]; intros bi cur data sd d' s' cur' H Hc Hh; cbn [daqmx_buffers] in H.
+  - injection H as <- <- <-. exact Hh.
+  - destruct (read_rows w n cur) as [rows cur1].
+    destruct (daqmx_buffer_objs e objs bi rows w data sd) as [[d1 s1]|] eqn:E1;
+      cbn [bind] in H; [|discriminate].
+    eapply IH; [exact H| |].
+    + intros o q s Hin Hq Hp Hs Hid. specialize (Hc o q s Hin Hq Hp Hs Hid). lia.
+    + eapply buffer_objs_preserve; [exact E1| |exact Hh].
+      intros o q s Hin Hq Hp Hs Hb Hid. specialize (Hc o q s Hin Hq Hp Hs Hid). lia.
+Qed.
+
+Lemma buffers_establish e objs o q s : forall dims bi cur data sd d' s' cur' k n w,
+    daqmx_buffers e objs dims bi cur data sd = Ok (d', s', cur') ->
+    Forall (fun d => 0 <= fst d /\ 0 <= snd d) dims ->
+    In o objs -> NoDup (map so_path objs) -> so_daqmx o = Some q -> so_dtype o = Some T_DAQMX ->
+    In s (dq_scalers q) -> NoDup (map sc_id (dq_scalers q)) ->
+    nth_error dims k = Some (n, w) -> sc_buf s = bi + Z.of_nat k ->
+    exists vs, scaler_values e (dq_kind q) s (items w (read_at (buffer_base dims k) (w * n) cur)) w = Ok vs
+               /\ holds (so_path o) (sc_id s) vs s'.
+Proof.
+  induction dims as [|[n0 w0] r IH];
+    intros bi cur data sd d' s' cur' k n w H Hdims Hin Hnd Hq Hdt Hs Hids Hk Hb;
+    [destruct k; discriminate|].
+  cbn [daqmx_buffers] in H. inversion Hdims as [|x l [Hn0 Hw0] Hdims']; subst x l.
+  cbn [fst snd] in Hn0, Hw0.
+  destruct (read_rows w0 n0 cur) as [rows cur1] eqn:Er. rewrite read_rows_spec in Er.
+  injection Er as <- <-.
+  destruct (daqmx_buffer_objs e objs bi (items w0 (take (w0 * n0) cur)) w0 data sd) as [[d1 s1]|] eqn:E1;
+    cbn [bind] in H; [|discriminate].
+  destruct k as [|k].
+  - cbn [nth_error] in Hk. injection Hk as -> ->.
+    change (buffer_base ((n, w) :: r) 0) with 0. unfold read_at. rewrite drop_0.
+    destruct (buffer_objs_establish e bi _ w o q s objs _ _ _ _ E1 Hin Hnd Hq Hdt Hs ltac:(lia) Hids)
+      as [vs [Hv Hh]].
+    exists vs. split; [exact Hv|].
+    eapply buffers_preserve; [exact H| |exact Hh].
+    intros o' q' s0 Hin' Hq' Hp Hs0 Hid.
+    assert (o' = o) by (eapply (NoDup_map_inj so_path); eassumption). subst o'.
+    rewrite Hq in Hq'. injection Hq' as <-.
+    assert (s0 = s) by (eapply (NoDup_map_inj sc_id); eassumption). subst s0. lia.
+  - cbn [nth_error] in Hk. rewrite buffer_base_S.
+    destruct (IH (bi + 1) _ _ _ _ _ _ k n w H Hdims' Hin Hnd Hq Hdt Hs Hids Hk ltac:(lia))
+      as [vs [Hv Hh]].
+    exists vs. split; [|exact Hh].
+    rewrite read_at_drop in Hv; [exact Hv|apply buffer_base_nonneg; exact Hdims'|nia].
+Qed.
+
+(* -- merging scaler entries into the chunk -- *)
+
+Lemma merge_lookup_notin (s d : chunk) (k : bytes) :
+  ~ In k (map fst s) ->
+  alookup k (fold_left (fun acc kv => aset (fst kv) (snd kv) acc) s d) = alookup k d.
+Proof.
+  revert d. induction s as [|[k' v'] r IH]; intros d Hnin; [reflexivity|].
+  cbn [fold_left fst snd]. rewrite IH by (intros Hin; apply Hnin; right; exact Hin).
+  rewrite alookup_aset.
+  destruct (bytes_eqb k k') eqn:E; [|reflexivity].
+  apply bytes_eqb_eq in E. exfalso. apply Hnin. left. symmetry. exact E.
+Qed.
+
+Lemma merge_lookup (s d : chunk) (k : bytes) (v : cdata) :
+  NoDup (map fst s) -> alookup k s = Some v ->
+  alookup k (fold_left (fun acc kv => aset (fst kv) (snd kv) acc) s d) = Some v.
+Proof.
+  revert d. induction s as [|[k' v'] r IH]; intros d Hnd Hl; [discriminate|].
+  cbn [map fst] in Hnd. inversion Hnd as [|x l Hnin Hnd']; subst x l.
+  cbn [alookup] in Hl. cbn [fold_left fst snd].
+  destruct (bytes_eqb k k') eqn:E.
+  - apply bytes_eqb_eq in E. subst k'. injection Hl as ->.
+    rewrite merge_lookup_notin by exact Hnin. rewrite alookup_aset, bytes_eqb_refl. reflexivity.
+  - apply IH; assumption.
+Qed.
+
+(* DaqmxDataReader._read_data_chunk: scaler [s] of DAQmx channel [o], living in
+   raw buffer [k] (n rows of w bytes), is filed under (path, scale id) with the
+   values decoded from the window of the chunk that starts at the sum of the
+   sizes of the earlier buffers. *)
+Theorem read_daqmx_chunk_scaler e objs cur c cur1 dims o q s k n w :
+  read_daqmx_chunk e objs cur = Ok (c, cur1) ->
+  buffer_dims objs = Ok dims ->
+  Forall (fun d => 0 <= fst d /\ 0 <= snd d) dims ->
+  In o objs -> NoDup (map so_path objs) -> so_daqmx o = Some q -> so_dtype o = Some T_DAQMX ->
+  In s (dq_scalers q) -> NoDup (map sc_id (dq_scalers q)) ->
+  nth_error dims k = Some (n, w) -> sc_buf s = Z.of_nat k ->
+  exists vs, scaler_values e (dq_kind q) s (items w (read_at (buffer_base dims k) (w * n) cur)) w = Ok vs
+             /\ holds (so_path o) (sc_id s) vs c.
+Proof.
+  intros H Hd Hdims Hin Hnd Hq Hdt Hs Hids Hk Hb. unfold read_daqmx_chunk in H.
+  rewrite Hd in H. cbn [bind] in H.
+  destruct (daqmx_buffers e objs dims 0 cur [] []) as [[[d1 s1] cur1']|] eqn:E1;
+    cbn [bind] in H; [|discriminate].
+  injection H as <- <-.
+  destruct (buffers_establish e objs o q s dims 0 cur [] [] d1 s1 cur1' k n w
+                              E1 Hdims Hin Hnd Hq Hdt Hs Hids Hk ltac:(lia)) as [vs [Hv [l [Hl Hf]]]].
+  exists vs. split; [exact Hv|]. exists l. split; [|exact Hf].
+  apply merge_lookup; [|exact Hl].
+  eapply buffers_keys; [exact E1|constructor].
+Qed.
+
+(* C11's addressing statement for one chunk: value i of the scaler is the typed
+   value found at chunk offset buffer_base + i * width + byte offset (digital
+   lines: the addressed bit), for every complete row of the buffer present. *)
+Theorem daqmx_chunk_addressing e objs cur c cur1 dims o q s k n w dt sz :
+  read_daqmx_chunk e objs cur = Ok (c, cur1) ->
+  buffer_dims objs = Ok dims ->
+  Forall (fun d => 0 <= fst d /\ 0 <= snd d) dims ->
+  In o objs -> NoDup (map so_path objs) -> so_daqmx o = Some q -> so_dtype o = Some T_DAQMX ->
+  In s (dq_scalers q) -> NoDup (map sc_id (dq_scalers q)) ->
+  nth_error dims k = Some (n, w) -> sc_buf s = Z.of_nat k ->
+  0 < w -> 0 <= sc_off s ->
+  daqmx_type (sc_type s) = Some dt -> tds_size dt = Some (Some sz) ->
+  exists vs,
+    holds (so_path o) (sc_id s) vs c /\
+    length vs = length (items w (read_at (buffer_base dims k) (w * n) cur)) /\
+    forall i, (i < length vs)%nat ->
+              nth_error vs i = Some (scaler_value_at e (dq_kind q) s dt sz (buffer_base dims k) w cur i).
+Proof.
+  intros H Hd Hdims Hin Hnd Hq Hdt Hs Hids Hk Hb Hw Hoff Hty Hsz.
+  destruct (read_daqmx_chunk_scaler e objs cur c cur1 dims o q s k n w
+                                    H Hd Hdims Hin Hnd Hq Hdt Hs Hids Hk Hb) as [vs [Hv Hh]].
+  assert (Hnw : 0 <= n /\ 0 <= w).
+  { rewrite Forall_forall in Hdims. apply (Hdims (n, w)). eapply nth_error_In. exact Hk. }
+  destruct (scaler_window_addressing e (dq_kind q) s _ (buffer_base dims k) (w * n) w cur dt sz vs
+                                     Hw Hoff (buffer_base_nonneg dims k Hdims) ltac:(nia) Hty Hsz Hv)
+    as [Hl Hnth].
+  exists vs. split; [exact Hh|]. split; [exact Hl|].
+  intros i Hi. apply Hnth. unfold items in Hl. lia.
+Qed.
+
+(* ---- chunks of a segment ------------------------------------------------------- *)
+
+(* bytes of one complete chunk: the buffers one after another *)
+Definition chunk_bytes (dims : list (Z * Z)) : Z := zsum (map (fun d => snd d * fst d) dims).
+
+Lemma chunk_bytes_nonneg dims :
+  Forall (fun d => 0 <= fst d /\ 0 <= snd d) dims -> 0 <= chunk_bytes dims.
+Proof.
+  induction 1 as [|[n w] r [Hn Hw] _ IH]; cbn; [lia|].
+  cbn [fst snd] in Hn, Hw. unfold chunk_bytes, zsum in IH. nia.
+Qed.
+
+Lemma buffer_base_all dims : buffer_base dims (length dims) = chunk_bytes dims.
+Proof. unfold buffer_base, chunk_bytes. rewrite firstn_all. reflexivity. Qed.
+
+(* a chunk's buffers consume chunk_bytes (or whatever is left) *)
+Lemma daqmx_buffers_rest e objs : forall dims bi cur data sd d' s' cur',
+    daqmx_buffers e objs dims bi cur data sd = Ok (d', s', cur') ->
+    Forall (fun d => 0 <= fst d /\ 0 <= snd d) dims ->
+    cur' = drop (chunk_bytes dims) cur.
+Proof.
+  induction dims as [|[n w] r IH]; intros bi cur data sd d' s' cur' H Hdims; cbn [daqmx_buffers] in H.
+  - injection H as _ _ <-. symmetry. apply drop_0.
+  - inversion Hdims as [|x l [Hn Hw] Hdims']; subst x l. cbn [fst snd] in Hn, Hw.
+    destruct (read_rows w n cur) as [rows cur1] eqn:Er. rewrite read_rows_spec in Er.
+    injection Er as _ <-.
+    destruct (daqmx_buffer_objs e objs bi rows w data sd) as [[d1 s1]|];
+      cbn [bind] in H; [|discriminate].
+    rewrite (IH _ _ _ _ _ _ _ H Hdims'). rewrite drop_drop.
+    + reflexivity.
+    + apply chunk_bytes_nonneg. exact Hdims'.
+    + nia.
+Qed.
+
+Lemma read_daqmx_chunk_rest e objs cur c cur1 dims :
+  read_daqmx_chunk e objs cur = Ok (c, cur1) ->
+  buffer_dims objs = Ok dims ->
+  Forall (fun d => 0 <= fst d /\ 0 <= snd d) dims ->
+  cur1 = drop (chunk_bytes dims) cur.
+Proof.
+  intros H Hd Hdims. unfold read_daqmx_chunk in H. rewrite Hd in H. cbn [bind] in H.
+  destruct (daqmx_buffers e objs dims 0 cur [] []) as [[[d1 s1] cur1']|] eqn:E1;
+    cbn [bind] in H; [|discriminate].
+  injection H as _ <-. eapply daqmx_buffers_rest; eassumption.
+Qed.
+
+(* chunk j of the loop is read at j * (bytes per chunk) *)
+Lemma read_chunks_loop_nth (rd : Z -> bytes -> res (chunk * bytes)) (sz : Z) :
+  (forall ci c ch c', rd ci c = Ok (ch, c') -> c' = drop sz c) -> 0 <= sz ->
+  forall fuel ci n cur cs cur',
+    read_chunks_loop fuel rd ci n cur = Ok (cs, cur') ->
+    forall j ch, nth_error cs j = Some ch ->
+                 exists c', rd (ci + Z.of_nat j) (drop (Z.of_nat j * sz) cur) = Ok (ch, c').
+Proof.
+  intros Hrd Hsz. induction fuel as [|f IH]; intros ci n cur cs cur' H j ch Hj;
+    cbn [read_chunks_loop] in H.
+  - destruct (n <=? ci); [|discriminate]. injection H as <- _. destruct j; discriminate.
+  - destruct (n <=? ci); [injection H as <- _; destruct j; discriminate|].
+    destruct (rd ci cur) as [[c0 cur1]|] eqn:E0; cbn [bind] in H; [|discriminate].
+    destruct (read_chunks_loop f rd (ci + 1) n cur1) as [[cs1 cur2]|] eqn:E1;
+      cbn [bind] in H; [|discriminate].
+    injection H as <- <-. destruct j as [|j].
+    + cbn [nth_error] in Hj. injection Hj as <-. exists cur1.
+      replace (ci + Z.of_nat 0) with ci by lia. cbn [Z.of_nat Z.mul]. rewrite drop_0. exact E0.
+    + cbn [nth_error] in Hj. destruct (IH _ _ _ _ _ E1 j ch Hj) as [c' Hc'].
+      exists c'. rewrite (Hrd _ _ _ _ E0) in Hc'. rewrite drop_drop in Hc' by lia.
+      replace (ci + Z.of_nat (S j)) with (ci + 1 + Z.of_nat j) by lia.
+      replace (Z.of_nat (S j) * sz) with (sz + Z.of_nat j * sz) by lia. exact Hc'.
+Qed.
+
+Lemma scaler_value_at_drop e kind s dt sz base w b cur i :
+  0 <= b -> 0 <= base -> 0 <= w -> 0 <= sc_off s ->
+  scaler_value_at e kind s dt sz base w (drop b cur) i
+  = scaler_value_at e kind s dt sz (b + base) w cur i.
+Proof.
+  intros Hb Hbase Hw Hoff. unfold scaler_value_at.
+  assert (Hoff8 : 0 <= sc_off s / 8) by (apply Z.div_pos; lia).
+  destruct (kind =? DIGITAL_LINE_SCALER).
+  - rewrite read_at_drop by nia. do 3 f_equal. lia.
+  - rewrite read_at_drop by nia. do 2 f_equal. lia.
+Qed.
+
+(* C11, whole segment: value i of scaler [s] of DAQmx channel [o] in chunk j is
+   the typed value at
+     data_position + j * chunk_bytes + buffer_base(k) + i * width(k) + byte offset
+   ([cur] is the file from the segment's data_position on). *)
+Theorem daqmx_segment_addressing sg cur cs cur' dims o q s k n w dt sz j c :
+  seg_layout sg = Ok LDaqmx ->
+  read_segment_chunks sg cur = Ok (cs, cur') ->
+  buffer_dims (data_objs (sg_objs sg)) = Ok dims ->
+  Forall (fun d => 0 <= fst d /\ 0 <= snd d) dims ->
+  In o (data_objs (sg_objs sg)) -> NoDup (map so_path (data_objs (sg_objs sg))) ->
+  so_daqmx o = Some q -> so_dtype o = Some T_DAQMX ->
+  In s (dq_scalers q) -> NoDup (map sc_id (dq_scalers q)) ->
+  nth_error dims k = Some (n, w) -> sc_buf s = Z.of_nat k ->
+  0 < w -> 0 <= sc_off s ->
+  daqmx_type (sc_type s) = Some dt -> tds_size dt = Some (Some sz) ->
+  nth_error cs j = Some c ->
+  let base := Z.of_nat j * chunk_bytes dims + buffer_base dims k in
+  exists vs,
+    holds (so_path o) (sc_id s) vs c /\
+    length vs = length (items w (read_at base (w * n) cur)) /\
+    forall i, (i < length vs)%nat ->
+              nth_error vs i
+              = Some (scaler_value_at (toc_endian (sg_toc sg)) (dq_kind q) s dt sz base w cur i).
+Proof.
+  intros Hlay H Hd Hdims Hin Hnd Hq Hdt Hs Hids Hk Hb Hw Hoff Hty Hsz Hj base.
+  unfold read_segment_chunks in H. rewrite Hlay in H. cbn [bind] in H.
+  set (e := toc_endian (sg_toc sg)) in *. set (objs := data_objs (sg_objs sg)) in *.
+  pose proof (chunk_bytes_nonneg dims Hdims) as Hcb.
+  pose proof (buffer_base_nonneg dims k Hdims) as Hbb.
+  assert (Hrd : forall (ci : Z) (c0 : bytes) (ch : chunk) (c' : bytes),
+             (fun (_ : Z) (c1 : bytes) => read_daqmx_chunk e objs c1) ci c0 = Ok (ch, c') ->
+             c' = drop (chunk_bytes dims) c0).
+  { intros ci c0 ch c' Hr. exact (read_daqmx_chunk_rest e objs c0 ch c' dims Hr Hd Hdims). }
+  destruct (read_chunks_loop_nth _ _ Hrd Hcb _ _ _ _ _ _ H j c Hj) as [c' Hc'].
+  cbv beta in Hc'.
+  destruct (daqmx_chunk_addressing e objs _ c c' dims o q s k n w dt sz
+                                   Hc' Hd Hdims Hin Hnd Hq Hdt Hs Hids Hk Hb Hw Hoff Hty Hsz)
+    as [vs [Hh [Hl Hnth]]].
+  exists vs. split; [exact Hh|].
+  rewrite read_at_drop in Hl by nia. split; [exact Hl|].
+  intros i Hi. rewrite (Hnth i Hi). f_equal.
+  apply scaler_value_at_drop; nia.
+Qed.
+
+(* ---- typed DAQmx channels (data type is the single scaler's type): data, not scaler_data ---- *)
+
+Lemma oz_eqb_true a b : oz_eqb a b = true -> a = b.
+Proof. destruct a, b; cbn; try discriminate; try reflexivity. intros H. f_equal. lia. Qed.
+
+(* every key of the scaler dictionary is the path of a DaqMxRawData-typed object *)
+Definition skeys_ok (all : list sobj) (sd : chunk) : Prop :=
+  forall k, In k (map fst sd) ->
+            exists o, In o all /\ so_path o = k /\ so_dtype o = Some T_DAQMX.
+
+Lemma obj_scalers_skeys all e o q bi rows w : forall scalers data sd d' s',
+    daqmx_obj_scalers e o q bi rows w scalers data sd = Ok (d', s') ->
+    In o all -> skeys_ok all sd -> skeys_ok all s'.
+Proof.
+  induction scalers as [|s r IH]; intros data sd d' s' H Hin Hk; cbn [daqmx_obj_scalers] in H.
+  - injection H as <- <-. exact Hk.
+  - destruct (negb (sc_buf s =? bi)); [eapply IH; eassumption|].
+    destruct (scaler_values e (dq_kind q) s rows w) as [vs|]; cbn [bind] in H; [|discriminate].
+    destruct (oz_eqb (so_dtype o) (Some T_DAQMX)) eqn:Ed.
+    + eapply IH; [exact H|exact Hin|]. intros k Hkin. apply aset_keys_subset in Hkin.
+      destruct Hkin as [->|Hkin]; [|apply Hk; exact Hkin].
+      exists o. repeat split; [exact Hin|apply oz_eqb_true; exact Ed].
+    + eapply IH; eassumption.
+Qed.
+
+Lemma obj_scalers_data_other e o q bi rows w path : forall scalers data sd d' s',
+    daqmx_obj_scalers e o q bi rows w scalers data sd = Ok (d', s') ->
+    path <> so_path o -> alookup path d' = alookup path data.
+Proof.
+  induction scalers as [|s r IH]; intros data sd d' s' H Hne; cbn [daqmx_obj_scalers] in H.
+  - injection H as <- <-. reflexivity.
+  - destruct (negb (sc_buf s =? bi)); [eapply IH; eassumption|].
+    destruct (scaler_values e (dq_kind q) s rows w) as [vs|]; cbn [bind] in H; [|discriminate].
+    destruct (oz_eqb (so_dtype o) (Some T_DAQMX)).
+    + eapply IH; eassumption.
+    + rewrite (IH _ _ _ _ H Hne). rewrite alookup_aset.
+      destruct (bytes_eqb path (so_path o)) eqn:E; [|reflexivity].
+      apply bytes_eqb_eq in E. contradiction.
+Qed.
+
+Lemma obj_scalers_data_idle e o q bi rows w : forall scalers data sd d' s',
+    daqmx_obj_scalers e o q bi rows w scalers data sd = Ok (d', s') ->
+    (forall s, In s scalers -> sc_buf s <> bi) -> d' = data.
+Proof.
+  induction scalers as [|s r IH]; intros data sd d' s' H Hc; cbn [daqmx_obj_scalers] in H.
+  - injection H as <- <-. reflexivity.
+  - destruct (sc_buf s =? bi) eqn:Eb; cbn [negb] in H.
+    + exfalso. apply (Hc s (or_introl eq_refl)). lia.
+    + eapply IH; [exact H|]. intros s0 Hin. apply Hc. right. exact Hin.
+Qed.
+
+Lemma buffer_objs_skeys all e bi rows w : forall objs data sd d' s',
+    daqmx_buffer_objs e objs bi rows w data sd = Ok (d', s') ->
+    (forall o, In o objs -> In o all) -> skeys_ok all sd -> skeys_ok all s'.
+Proof.
+  induction objs as [|o r IH]; intros data sd d' s' H Hincl Hk; cbn [daqmx_buffer_objs] in H.
+  - injection H as <- <-. exact Hk.
+  - destruct (so_daqmx o) as [q|]; [|discriminate].
+    destruct (daqmx_obj_scalers e o q bi rows w (dq_scalers q) data sd) as [[d1 s1]|] eqn:E1;
+      cbn [bind] in H; [|discriminate].
+    eapply IH; [exact H| |].
+    + intros o' Hin. apply Hincl. right. exact Hin.
+    + eapply obj_scalers_skeys; [exact E1|apply Hincl; left; reflexivity|exact Hk].
+Qed.
+
+Lemma buffer_objs_data_preserve e bi rows w path : forall objs data sd d' s',
+    daqmx_buffer_objs e objs bi rows w data sd = Ok (d', s') ->
+    (forall o q s, In o objs -> so_daqmx o = Some q -> so_path o = path ->
+                   In s (dq_scalers q) -> sc_buf s <> bi) ->
+    alookup path d' = alookup path data.
+Proof.
+  induction objs as [|o r IH]; intros data sd d' s' H Hc; cbn [daqmx_buffer_objs] in H.
+  - injection H as <- <-. reflexivity.
+  - destruct (so_daqmx o) as [q|] eqn:Hq; [|discriminate].
+    destruct (daqmx_obj_scalers e o q bi rows w (dq_scalers q) data sd) as [[d1 s1]|] eqn:E1;
+      cbn [bind] in H; [|discriminate].
+    rewrite (IH _ _ _ _ H) by (intros o' q' s0 Hin; apply Hc; right; exact Hin).
+    destruct (bytes_eqb path (so_path o)) eqn:Ep.
+    + apply bytes_eqb_eq in Ep.
+      rewrite (obj_scalers_data_idle _ _ _ _ _ _ _ _ _ _ _ E1); [reflexivity|].
+      intros s0 Hin0. apply (Hc o q s0 (or_introl eq_refl) Hq (eq_sym Ep) Hin0).
+    + eapply obj_scalers_data_other; [exact E1|]. apply bytes_eqb_neq. exact Ep.
+Qed.
+
+Lemma buffer_objs_data_establish e bi rows w o q s dto : forall objs data sd d' s',
+    daqmx_buffer_objs e objs bi rows w data sd = Ok (d', s') ->
+    In o objs -> NoDup (map so_path objs) -> so_daqmx o = Some q ->
+    so_dtype o = Some dto -> dto <> T_DAQMX ->
+    dq_scalers q = [s] -> sc_buf s = bi ->
+    exists vs, scaler_values e (dq_kind q) s rows w = Ok vs /\
+               alookup (so_path o) d' = Some (CData vs).
+Proof.
+  induction objs as [|o1 r IH]; intros data sd d' s' H Hin Hnd Hq Hdt Hne Hs Hb; [contradiction|].
+  cbn [daqmx_buffer_objs] in H. cbn [map] in Hnd. inversion Hnd as [|x l Hnin Hnd']; subst x l.
+  destruct Hin as [Heq|Hin].
+  - subst o1. rewrite Hq in H. rewrite Hs in H. cbn [daqmx_obj_scalers] in H.
+    replace (sc_buf s =? bi) with true in H by lia. cbn [negb] in H.
+    destruct (scaler_values e (dq_kind q) s rows w) as [vs|] eqn:Ev; [|discriminate].
+    cbn [bind] in H. rewrite Hdt in H. cbn [oz_eqb] in H.
+    replace (dto =? T_DAQMX) with false in H by lia. cbn [bind] in H.
+    exists vs. split; [reflexivity|].
+    rewrite (buffer_objs_data_preserve _ _ _ _ _ _ _ _ _ _ H).
+    + rewrite alookup_aset, bytes_eqb_refl. reflexivity.
+    + intros o' q' s0 Hin' _ Hp. exfalso. apply Hnin. rewrite <- Hp. apply in_map. exact Hin'.
+  - destruct (so_daqmx o1) as [q1|]; [|discriminate].
+    destruct (daqmx_obj_scalers e o1 q1 bi rows w (dq_scalers q1) data sd) as [[d1 s1]|];
+      cbn [bind] in H; [|discriminate].
+    eapply IH; eassumption.
+Qed.
+
+Lemma buffers_skeys e objs : forall dims bi cur data sd d' s' cur',
+    daqmx_buffers e objs dims bi cur data sd = Ok (d', s', cur') ->
+    skeys_ok objs sd -> skeys_ok objs s'.
+Proof.
+  induction dims as [|[n w] r IH]; intros bi cur data sd d' s' cur' H Hk; cbn [daqmx_buffers] in H.
+  - injection H as <- <- <-. exact Hk.
+  - destruct (read_rows w n cur) as [rows cur1].
+    destruct (daqmx_buffer_objs e objs bi rows w data sd) as [[d1 s1]|] eqn:E1;
+      cbn [bind] in H; [|discriminate].
+    eapply IH; [exact H|]. eapply buffer_objs_skeys; [exact E1|auto|exact Hk].
+Qed.
+
+Lemma buffers_data_preserve e objs path : forall dims bi cur data sd d' s' cur',
+    daqmx_buffers e objs dims bi cur data sd = Ok (d', s', cur') ->
+    (forall o q s, In o objs -> so_daqmx o = Some q -> so_path o = path ->
+                   In s (dq_scalers q) -> sc_buf s < bi) ->
+    alookup path d' = alookup path data.
+Proof.
+  induction dims as [|[n w] r IH]; intros bi cur data sd d' s' cur' H Hc; cbn [daqmx_buffers] in H.
+  - injection H as <- <- <-. reflexivity.
+  - destruct (read_rows w n cur) as [rows cur1].
+    destruct (daqmx_buffer_objs e objs bi rows w data sd) as [[d1 s1]|] eqn:E1;
+      cbn [bind] in H; [|discriminate].
+    rewrite (IH _ _ _ _ _ _ _ H).
+    + eapply buffer_objs_data_preserve; [exact E1|].
+      intros o q s Hin Hq Hp Hs. specialize (Hc o q s Hin Hq Hp Hs). lia.
+    + intros o q s Hin Hq Hp Hs. specialize (Hc o q s Hin Hq Hp Hs). lia.
+Qed.
+
+Lemma buffers_data_establish e objs o q s dto : forall dims bi cur data sd d' s' cur' k n w,
+    daqmx_buffers e objs dims bi cur data sd = Ok (d', s', cur') ->
+    Forall (fun d => 0 <= fst d /\ 0 <= snd d) dims ->
+    In o objs -> NoDup (map so_path objs) -> so_daqmx o = Some q ->
+    so_dtype o = Some dto -> dto <> T_DAQMX -> dq_scalers q = [s] ->
+    nth_error dims k = Some (n, w) -> sc_buf s = bi + Z.of_nat k ->
+    exists vs, scaler_values e (dq_kind q) s (items w (read_at (buffer_base dims k) (w * n) cur)) w = Ok vs
+               /\ alookup (so_path o) d' = Some (CData vs).
+Proof.
+  induction dims as [|[n0 w0] r IH];
+    intros bi cur data sd d' s' cur' k n w H Hdims Hin Hnd Hq Hdt Hne Hs Hk Hb;
+    [destruct k; discriminate|].
+  cbn [daqmx_buffers] in H. inversion Hdims as [|x l [Hn0 Hw0] Hdims']; subst x l.
+  cbn [fst snd] in Hn0, Hw0.
+  destruct (read_rows w0 n0 cur) as [rows cur1] eqn:Er. rewrite read_rows_spec in Er.
+  injection Er as <- <-.
+  destruct (daqmx_buffer_objs e objs bi (items w0 (take (w0 * n0) cur)) w0 data sd) as [[d1 s1]|] eqn:E1;
+    cbn [bind] in H; [|discriminate].
+  destruct k as [|k].
+  - cbn [nth_error] in Hk. injection Hk as -> ->.
+    change (buffer_base ((n, w) :: r) 0) with 0. unfold read_at. rewrite drop_0.
+    destruct (buffer_objs_data_establish e bi _ w o q s dto objs _ _ _ _ E1 Hin Hnd Hq Hdt Hne Hs
+                                         ltac:(lia)) as [vs [Hv Hl]].
+    exists vs. split; [exact Hv|].
+    rewrite (buffers_data_preserve _ _ _ _ _ _ _ _ _ _ _ H); [exact Hl|].
+    intros o' q' s0 Hin' Hq' Hp Hs0.
+    assert (o' = o) by (eapply (NoDup_map_inj so_path); eassumption). subst o'.
+    rewrite Hq in Hq'. injection Hq' as <-. rewrite Hs in Hs0.
+    destruct Hs0 as [<-|[]]. lia.
+  - cbn [nth_error] in Hk. rewrite buffer_base_S.
+    destruct (IH (bi + 1) _ _ _ _ _ _ k n w H Hdims' Hin Hnd Hq Hdt Hne Hs Hk ltac:(lia))
+      as [vs [Hv Hl]].
+    exists vs. split; [|exact Hl].
+    rewrite read_at_drop in Hv; [exact Hv|apply buffer_base_nonneg; exact Hdims'|nia].
+Qed.
+
+(* the addressing statement for a typed DAQmx channel: its data are the values
+   of its single scaler *)
+Theorem daqmx_chunk_addressing_typed e objs cur c cur1 dims o q s dto k n w dt sz :
+  read_daqmx_chunk e objs cur = Ok (c, cur1) ->
+  buffer_dims objs = Ok dims ->
+  Forall (fun d => 0 <= fst d /\ 0 <= snd d) dims ->
+  In o objs -> NoDup (map so_path objs) -> so_daqmx o = Some q ->
+  so_dtype o = Some dto -> dto <> T_DAQMX -> dq_scalers q = [s] ->
+  nth_error dims k = Some (n, w) -> sc_buf s = Z.of_nat k ->
+  0 < w -> 0 <= sc_off s ->
+  daqmx_type (sc_type s) = Some dt -> tds_size dt = Some (Some sz) ->
+  exists vs,
+    alookup (so_path o) c = Some (CData vs) /\
+    length vs = length (items w (read_at (buffer_base dims k) (w * n) cur)) /\
+    forall i, (i < length vs)%nat ->
+              nth_error vs i = Some (scaler_value_at e (dq_kind q) s dt sz (buffer_base dims k) w cur i).
+Proof.
+  intros H Hd Hdims Hin Hnd Hq Hdt Hne Hs Hk Hb Hw Hoff Hty Hsz.
+  unfold read_daqmx_chunk in H. rewrite Hd in H. cbn [bind] in H.
+  destruct (daqmx_buffers e objs dims 0 cur [] []) as [[[d1 s1] cur1']|] eqn:E1;
+    cbn [bind] in H; [|discriminate].
+  injection H as <- <-.
+  destruct (buffers_data_establish e objs o q s dto dims 0 cur [] [] d1 s1 cur1' k n w
+                                   E1 Hdims Hin Hnd Hq Hdt Hne Hs Hk ltac:(lia)) as [vs [Hv Hl]].
+  assert (Hnw : 0 <= n /\ 0 <= w).
+  { rewrite Forall_forall in Hdims. apply (Hdims (n, w)). eapply nth_error_In. exact Hk. }
+  destruct (scaler_window_addressing e (dq_kind q) s _ (buffer_base dims k) (w * n) w cur dt sz vs
+                                     Hw Hoff (buffer_base_nonneg dims k Hdims) ltac:(nia) Hty Hsz Hv)
+    as [Hlen Hnth].
+  exists vs. split; [|split; [exact Hlen|]].
+  - rewrite merge_lookup_notin; [exact Hl|].
+    intros Hkin.
+    assert (Hsk : skeys_ok objs s1).
+    { eapply buffers_skeys; [exact E1|]. intros k0 []. }
+    destruct (Hsk _ Hkin) as [o' [Hin' [Hp Hdt']]].
+    assert (o' = o) by (eapply (NoDup_map_inj so_path); eassumption). subst o'.
+    rewrite Hdt in Hdt'. injection Hdt' as ->. contradiction.
+  - intros i Hi. apply Hnth. unfold items in Hlen. lia.
+Qed.
+
+Theorem daqmx_segment_addressing_typed sg cur cs cur' dims o q s dto k n w dt sz j c :
+  seg_layout sg = Ok LDaqmx ->
+  read_segment_chunks sg cur = Ok (cs, cur') ->
+  buffer_dims (data_objs (sg_objs sg)) = Ok dims ->
+  Forall (fun d => 0 <= fst d /\ 0 <= snd d) dims ->
+  In o (data_objs (sg_objs sg)) -> NoDup (map so_path (data_objs (sg_objs sg))) ->
+  so_daqmx o = Some q -> so_dtype o = Some dto -> dto <> T_DAQMX -> dq_scalers q = [s] ->
+  nth_error dims k = Some (n, w) -> sc_buf s = Z.of_nat k ->
+  0 < w -> 0 <= sc_off s ->
+  daqmx_type (sc_type s) = Some dt -> tds_size dt = Some (Some sz) ->
+  nth_error cs j = Some c ->
+  let base := Z.of_nat j * chunk_bytes dims + buffer_base dims k in
+  exists vs,
+    alookup (so_path o) c = Some (CData vs) /\
+    length vs = length (items w (read_at base (w * n) cur)) /\
+    forall i, (i < length vs)%nat ->
+              nth_error vs i
+              = Some (scaler_value_at (toc_endian (sg_toc sg)) (dq_kind q) s dt sz base w cur i).
+Proof.
+  intros Hlay H Hd Hdims Hin Hnd Hq Hdt Hne Hs Hk Hb Hw Hoff Hty Hsz Hj base.
+  unfold read_segment_chunks in H. rewrite Hlay in H. cbn [bind] in H.
+  set (e := toc_endian (sg_toc sg)) in *. set (objs := data_objs (sg_objs sg)) in *.
+  pose proof (chunk_bytes_nonneg dims Hdims) as Hcb.
+  pose proof (buffer_base_nonneg dims k Hdims) as Hbb.
+  assert (Hrd : forall (ci : Z) (c0 : bytes) (ch : chunk) (c' : bytes),
+             (fun (_ : Z) (c1 : bytes) => read_daqmx_chunk e objs c1) ci c0 = Ok (ch, c') ->
+             c' = drop (chunk_bytes dims) c0).
+  { intros ci c0 ch c' Hr. exact (read_daqmx_chunk_rest e objs c0 ch c' dims Hr Hd Hdims). }
+  destruct (read_chunks_loop_nth _ _ Hrd Hcb _ _ _ _ _ _ H j c Hj) as [c' Hc'].
+  cbv beta in Hc'.
+  destruct (daqmx_chunk_addressing_typed e objs _ c c' dims o q s dto k n w dt sz
+                                         Hc' Hd Hdims Hin Hnd Hq Hdt Hne Hs Hk Hb Hw Hoff Hty Hsz)
+    as [vs [Hh [Hl Hnth]]].
+  exists vs. split; [exact Hh|].
+  rewrite read_at_drop in Hl by nia. split; [exact Hl|].
+  intros i Hi. rewrite (Hnth i Hi). f_equal.
+  apply scaler_value_at_drop; nia.
+Qed.
+
+(* how many rows a (possibly truncated) buffer yields: the complete rows among
+   the bytes that are there *)
+Lemma rows_count_available (w n base : Z) (cur : bytes) :
+  0 < w -> 0 <= n -> 0 <= base ->
+  Z.of_nat (length (items w (read_at base (w * n) cur)))
+  = Z.min (w * n) (blen cur - Z.min base (blen cur)) / w.
+Proof.
+  intros Hw Hn Hb. rewrite items_length by exact Hw.
+  unfold read_at. rewrite blen_take by nia. rewrite blen_drop by exact Hb. reflexivity.
+Qed.
+
+(* ---- a concrete segment ---------------------------------------------------------- *)
+(* big-endian; two raw buffers (2 rows x 4 bytes, 3 rows x 3 bytes; 17 bytes per
+   chunk), two chunks; channel a: two int16 scalers in buffer 0 at byte offsets 0
+   and 2; channel b: one uint8 scaler in buffer 1 at byte offset 1; channel c:
+   a digital line in buffer 1 at bit offset 10 (byte 1, bit 2). *)
+Section Example.
+Import String.
+Local Open Scope string_scope.
+Definition ex_qa := mkDq FORMAT_CHANGING_SCALER [mkScaler 3 0 0 0 0; mkScaler 3 0 2 0 1] [4; 3].
+Definition ex_qb := mkDq FORMAT_CHANGING_SCALER [mkScaler 0 1 1 0 0] [4; 3].
+Definition ex_qc := mkDq DIGITAL_LINE_SCALER [mkScaler 0 1 10 0 0] [4; 3].
+Definition ex_oa := mkSobj (hex "2f2761") true 2 0 (Some T_DAQMX) (Some ex_qa).
+Definition ex_ob := mkSobj (hex "2f2762") true 3 0 (Some T_DAQMX) (Some ex_qb).
+Definition ex_oc := mkSobj (hex "2f2763") true 3 0 (Some T_DAQMX) (Some ex_qc).
+Definition ex_seg := mkSeg 0 (2 + 4 + 8 + 64 + 128) 0 0 false [ex_oa; ex_ob; ex_oc] [] 2 None.
+Definition ex_data := hex "0102030411121314a0a1a2b0b1b2c0c1c2212223243132333400040f00ff0a000100".
+
+Example daqmx_segment_example :
+  buffer_dims [ex_oa; ex_ob; ex_oc] = Ok [(2, 4); (3, 3)] /\
+  read_segment_chunks ex_seg ex_data =
+  Ok ([ [(hex "2f2761", CScalers [(0, [hex "0201"; hex "1211"]); (1, [hex "0403"; hex "1413"])]);
+         (hex "2f2762", CScalers [(0, [hex "a1"; hex "b1"; hex "c1"])]);
+         (hex "2f2763", CScalers [(0, [hex "00"; hex "00"; hex "00"])])];
+        [(hex "2f2761", CScalers [(0, [hex "2221"; hex "3231"]); (1, [hex "2423"; hex "3433"])]);
+         (hex "2f2762", CScalers [(0, [hex "04"; hex "ff"; hex "01"])]);
+         (hex "2f2763", CScalers [(0, [hex "01"; hex "01"; hex "00"])])] ], []) /\
+  (* chunk 1, buffer 1 (base 17 + 8), row 1, byte offset 1: address 17 + 8 + 1*3 + 1 = 29 *)
+  scaler_value_at BE FORMAT_CHANGING_SCALER (mkScaler 0 1 1 0 0) 5 1
+                  (1 * chunk_bytes [(2, 4); (3, 3)] + buffer_base [(2, 4); (3, 3)] 1) 3 ex_data 1
+  = hex "ff" /\
+  read_at 29 1 ex_data = hex "ff" /\
+  (* the digital line at the same row: bit 2 of byte 29 *)
+  scaler_value_at BE DIGITAL_LINE_SCALER (mkScaler 0 1 10 0 0) 5 1
+                  (1 * chunk_bytes [(2, 4); (3, 3)] + buffer_base [(2, 4); (3, 3)] 1) 3 ex_data 1
+  = hex "01".
+Proof. vm_compute. repeat split. Qed.
+End Example.
